@@ -82,7 +82,7 @@ prop('C02', SERVER_TOO, title='Every call terminates; no wakeup is lost',
      level_note='Liveness is not decidable by this technique; dependency models are assumed to register the waker whenever they answer Pending.',
      not_covered='liveness proper; caller-side oneshot wake; server handler wake-ups; executor fairness; a transport registration superseded within the same poll (argued on paper: the superseding Ready implies a wake was issued during this poll)')
 prop('C03', title='Abandoned calls are cancelled on the wire, exactly when needed',
-     verus=['client', 'cancellations'], native=['client_wire_bounded'], technique=TECH_V,
+     verus=['client', 'cancellations'], native=['client_wire_bounded', 'client_backpressure_bounded'], technique=TECH_V + '; plus bounded replay searches on the wire (incl. abandonment under back-pressure) as a source of concrete failing inputs (never counted as proved)',
      assumptions=COMMON_V + ['A-oneshot', 'A-mpsc', 'A-ids', 'A-sink', 'A-delayqueue'],
      level_text='Proof that a request is yielded for writing only if its receiver was not seen closed; that a Cancel is written only for an id that is in flight (hence after its Request: dispatch invariant has_req) and removes it from the table (hence at most once); that a request whose write failed is removed (no later cancel).',
      level_note='Also proved: ResponseGuard::drop closes the receiver before queueing the cancellation and queues one iff armed; ResponseGuard::response disarms the guard once the receiver produced; Channel::call creates the armed guard before enqueueing the request.',
@@ -93,10 +93,10 @@ prop('C05', title='Client enforces request deadlines, never early',
      level_text='Proof that insert_request arms exactly one timer for this id with delay min(deadline - now, MAX_TIMER_DELAY); that an expiry removes exactly the entry of the id its timer carried and delivers DeadlineExceeded to that entry\'s channel only; that a processed reply removes the timer (no later expiry); that pump_write polls expirations on every pass. Kani proves on the real code that time_until is the saturating difference for all instants.',
      level_note='Timer accuracy (never early, eventually fires) is tokio-util\'s (A-delayqueue).')
 prop('C07', SERVER_TOO, title='Deadlines propagate across hops without stretching',
-     verus=['client'], native=['server_context_bounded', 'client_wire_bounded', 'codec_grid_bounded'], kani=['k2_deadline_written_as_remaining_time', 'k2_deadline_decode_total_and_shifted', 'k2_deadline_shift_law', 'k2_default_deadline_ten_seconds', 'k3_time_until_is_saturating_difference'],
+     verus=['client', 'retry', 'lb_fairness'], native=['server_context_bounded', 'client_wire_bounded', 'codec_grid_bounded', 'retry_bounded'], kani=['k2_deadline_written_as_remaining_time', 'k2_deadline_decode_total_and_shifted', 'k2_deadline_shift_law', 'k2_default_deadline_ten_seconds', 'k3_time_until_is_saturating_difference'],
      technique=TECH_K + '; ' + TECH_V + '; plus bounded replay searches (what the handler observes; what the client writes) as a source of concrete failing inputs (never counted as proved)',
      assumptions=['A-codec', 'A-clock', 'A-verifiers', 'A-extraction'],
-     level_text='CBMC proof over all instants now1 <= now2 and all deadlines of the real serialize/deserialize: written duration = saturating D - now1; decoded D\' = now2 + duration; D\' >= D, D\' - D = transit, passed deadline arrives as now; default = now + 10 s. Verus proves the request written to the wire carries the caller\'s context (deadline forwarded unchanged).',
+     level_text='The stubs that sit between a caller and its channel (Retry, RoundRobin, ConsistentHash) hand every attempt / the one forwarded call the caller\'s context unchanged (Verus, units retry and lb_fairness). CBMC proof over all instants now1 <= now2 and all deadlines of the real serialize/deserialize: written duration = saturating D - now1; decoded D\' = now2 + duration; D\' >= D, D\' - D = transit, passed deadline arrives as now; default = now + 10 s. Verus proves the request written to the wire carries the caller\'s context (deadline forwarded unchanged).',
      level_note='Codecs carrying a Duration faithfully and serde_derive\'s default handling are assumed (A-codec).',
      not_covered='context::current() inside a handler without an OpenTelemetry layer; the derived Context::deserialize with the field omitted')
 prop('C09', SERVER_TOO, title='Transport failures are contained and reported',
@@ -112,7 +112,7 @@ prop('C10', SERVER_TOO, NATIVE_SERVER, title='Shutdown is orderly: queued work i
      level_note='That dropping the dispatch future fails the remaining callers is Rust drop glue + A-oneshot.',
      not_covered='server side (unit server)')
 prop('C11', SERVER_TOO, NATIVE_SERVER, title='Tracked request state is bounded and fully reclaimed',
-     verus=['client', 'cancellations', 'util_compact'], native=['client_wire_bounded', 'deadlines_bounded', 'server_abandon_bounded'],
+     verus=['client', 'cancellations', 'util_compact'], native=['client_wire_bounded', 'client_backpressure_bounded', 'deadlines_bounded', 'server_abandon_bounded'],
      technique='Verus: representation invariant (timers<->entries bijection) + whole-view postconditions on the real table functions, extracted from /repo each run',
      level_text='Deductive proof, for all table states and all ids, that every public operation of the real in-flight tables preserves the timers<->entries bijection and changes the abstract view exactly as specified; the history quantifier is discharged by the invariant (every call sequence is a sequence of contracted calls).',
      level_note='Proof is about the extracted text (rules logged per run) against trusted models of HashMap/DelayQueue/oneshot.',
@@ -141,7 +141,7 @@ prop('C16', SERVER_TOO, title='No peer-supplied input can crash an endpoint',
      level_note='Malformed frames are the codec\'s (dependency). humantime renders every timestamp before year 10000 (its documented contract) is assumed.',
      not_covered='malformed frames (codec)')
 prop('C18', SERVER_TOO, title='Trace context follows the request, and only that request',
-     verus=['client', 'trace_ctx'], native=['server_context_bounded', 'client_wire_bounded', 'cascade_bounded'], kani=['k6_otel_id_conversions_round_trip'], technique=TECH_V + '; plus a bounded replay search (boundary-value grid through the public API) as a source of concrete failing inputs (never counted as proved)',
+     verus=['client', 'trace_ctx', 'retry', 'lb_fairness'], native=['server_context_bounded', 'client_wire_bounded', 'cascade_bounded'], kani=['k6_otel_id_conversions_round_trip'], technique=TECH_V + '; plus a bounded replay search (boundary-value grid through the public API) as a source of concrete failing inputs (never counted as proved)',
      assumptions=COMMON_V + ['A-otel', 'A-sink', 'A-rand'],
      level_text='Proof that the Request written carries exactly the context stored in the table under its id, and that the Cancel for an id carries the trace context stored for that id (same trace id, sampling and span id); contexts live in the entry of their own id (frame clauses), so concurrent requests cannot exchange them.',
      level_note='Child-context derivation (new_child, server start_request) is in K6/unit server when registered.',
